@@ -124,6 +124,18 @@ CLAIMS = {
               "by, but not separately evaluated beyond, these term-level agreements."),
         technique="sibling agreement between size formula terms and encoder field sequences over MIR provenance terms",
         design_ref="§4 C12"),
+    "C18": dict(
+        category="other",
+        text=("Decides the shape clauses: the structured while/if listing of fast_merkle_root extracted from MIR agrees component by "
+              "component with the reference incremental algorithm — empty list returns the zero midstate first; leaf i enters as "
+              "Midstate::new(leaves[i], 64) in index order; every combination is compress(stored subtree || running hash) with the stored "
+              "subtree on the left; carry/skip/combine loops run exactly while bit `level` of count is clear; the finished subtree is stored "
+              "at inner[level]; the sweep promotes an unpaired node unchanged and stops at count == 1 << level. Integer conditions, updates "
+              "and indices are compared as functions on the reachable states of a (count, level, n) grid, so equivalent rewrites pass. "
+              "Equality with the definitional tree for every leaf count then follows by the loop invariant written out in DESIGN.md; "
+              "that last step is a paper argument and is not evaluated."),
+        technique="structured-listing extraction from MIR + semantic comparison of integer sub-terms + structural comparison of hash terms",
+        design_ref="§4 C18"),
     "C19": dict(
         category="other",
         text=("Decided by substitution: FullParams::calculate_root and Params::calculate_root are the same fast-merkle expression in "
